@@ -102,6 +102,12 @@ struct WMon {
     c17: HashMap<String, (u32, u32)>,
     /// per link label: what the previous tick published about the CC soft cap (C16)
     c16: HashMap<String, C16W>,
+    // ---- NAK attribution on the wire (C05) ----
+    /// data sequence number -> (time, path) of every copy seen on the wire
+    seq_paths: HashMap<u32, Vec<(u64, usize)>>,
+    /// a forged single-number NAK was delivered: (when, path that carried the last copy)
+    pending_nak: Option<(u64, usize, u32)>,
+    prev_windows: HashMap<String, i64>,
 }
 
 #[derive(Clone, Default)]
@@ -195,12 +201,14 @@ impl WMon {
             let labels: Vec<String> = links.iter().filter_map(|l| l["label"].as_str().map(|s| s.to_string())).collect();
             self.c16.retain(|k, _| labels.contains(k));
             self.on_stats_cc(now, links, out);
+            self.on_stats_nak(now, links, out);
             return;
         }
         let labels: Vec<String> = links.iter().filter_map(|l| l["label"].as_str().map(|s| s.to_string())).collect();
         self.c17.retain(|k, _| labels.contains(k));
         self.c16.retain(|k, _| labels.contains(k));
         self.on_stats_cc(now, links, out);
+        self.on_stats_nak(now, links, out);
         for l in links {
             let (Some(label), Some(connected), Some(weak)) = (l["label"].as_str(), l["connected"].as_bool(), l["weak"].as_bool()) else { continue };
             let reason = l["weak_reason"].as_str().unwrap_or("");
@@ -235,6 +243,34 @@ impl WMon {
                 h.0 = 0;
             }
         }
+    }
+
+    /// C05 on what the real loop publishes: after a NAK for a number that went out on two paths, the
+    /// only window that may have dropped is the one of the path that carried the last copy.
+    fn on_stats_nak(&mut self, now: u64, links: &[serde_json::Value], out: &mut MonOut) {
+        let cur: HashMap<String, i64> = links.iter().filter_map(|l| Some((l["label"].as_str()?.to_string(), l["window"].as_i64()?))).collect();
+        if let Some((t, owner, sq)) = self.pending_nak
+            && now > t
+        {
+            let via = format!(" via {}", crate::lsim::path_ip(owner));
+            for (label, w) in &cur {
+                if let Some(p) = self.prev_windows.get(label)
+                    && *w < *p
+                {
+                    out.probe("w.c05.charge_observed");
+                    if !label.ends_with(&via) {
+                        out.violate(
+                            "C05.attribution",
+                            "charged_non_owner_whole_loop",
+                            now,
+                            format!("NAK for {sq} at {t}: the last copy left on path {owner} less than 5 s earlier, yet the window that dropped ({p} -> {w}) is the one of {label} (real loop)"),
+                        );
+                    }
+                }
+            }
+            self.pending_nak = None;
+        }
+        self.prev_windows = cur;
     }
 
     /// C16 on what the real loop publishes every tick: range, no decrease outside a back-off or
@@ -393,6 +429,13 @@ impl WMon {
                 };
                 out.probe("w.flush");
                 self.paths_seen.insert(path);
+                if self.seq_paths.len() < 50_000 {
+                    for d in w.offered.iter().take(k) {
+                        if let Some(sq) = data_seq(d) {
+                            self.seq_paths.entry(sq).or_default().push((w.t, path));
+                        }
+                    }
+                }
                 for d in w.offered.iter().take(k) {
                     match self.accepted.get(d) {
                         Some((idx, _)) => {
@@ -445,6 +488,21 @@ impl WMon {
                 self.heard.insert(path, now);
                 if matches!(t, 0x8002 | 0x8003 | T_SRTLA_ACK) {
                     self.last_feedback = now;
+                }
+                if t == 0x8003 && bytes.len() == 8 {
+                    // a single-number NAK for a packet that went out on two paths within the last
+                    // 5 s: the sender remembers the path of the last copy
+                    let sq = u32::from_be_bytes([bytes[4], bytes[5], bytes[6], bytes[7]]) & 0x7FFF_FFFF;
+                    if let Some(copies) = self.seq_paths.get(&sq) {
+                        let recent: Vec<&(u64, usize)> = copies.iter().filter(|(t0, _)| now.saturating_sub(*t0) <= 4_900).collect();
+                        let mut paths: Vec<usize> = recent.iter().map(|c| c.1).collect();
+                        paths.sort_unstable();
+                        paths.dedup();
+                        if paths.len() >= 2 && let Some(last) = recent.last() {
+                            self.pending_nak = Some((now, last.1, sq));
+                            out.probe("w.c05.nak_for_a_number_on_two_paths");
+                        }
+                    }
                 }
                 if !internal(t) && self.client_known_at.is_some_and(|c| c < now) {
                     self.relay_pending.push((bytes.to_vec(), now));
